@@ -137,6 +137,15 @@ Theorem C18_reverse_step_count_mt : forall cfg s o,
 Proof. exact mstep_count. Qed.
 Print Assumptions C18_reverse_step_count_mt.
 
+(** The sequential histories of [run] (C18_reverse_before / _after / _always above) are exactly the machine histories in
+    which every `set_default` / guard drop / `set_global_default` runs to completion, on whichever threads: same
+    records in the same order, same flag. *)
+Theorem C18_run_is_machine : forall cfg h, Forall sop_ok h ->
+  List.concat (snd (mrun cfg minit (flat_map sop_block h))) = List.concat (snd (run cfg false (map sop_op h))) /\
+  has_been_set (m_regs (fst (mrun cfg minit (flat_map sop_block h)))) = fst (run cfg false (map sop_op h)).
+Proof. exact run_is_machine. Qed.
+Print Assumptions C18_run_is_machine.
+
 (** ** The other public entries *)
 
 (** `<LogTracer as log::Log>::enabled`: true iff gate, no ignored prefix, and the collector enables the record's own
